@@ -893,20 +893,20 @@ FormatterToXML::accumDefaultEscape(
         {
             if(ch > m_maxCharacter)
             {
-                if( !m_isXML1_1 && XalanUnicode::charLSEP == ch ) 
-                {
-                    throwInvalidCharacterException(ch, getMemoryManager());
-                }
-                else
-                {
-                    writeNumberedEntityReference(ch);
-                }
+                // This includes LSEP, which is an ordinary character in
+                // XML 1.0 and must be a reference in XML 1.1.
+                writeNumberedEntityReference(ch);
             }
             else if(ch < SPECIALSSIZE && m_attrCharsMap[ch] == 'S')
             {
                 if(ch < 0x20 )
                 {
-                    if(m_isXML1_1)
+                    // Tab, LF and CR are XML 1.0 characters.  The other
+                    // control characters are only allowed in XML 1.1.
+                    if(m_isXML1_1 ||
+                       XalanUnicode::charHTab == ch ||
+                       XalanUnicode::charLF == ch ||
+                       XalanUnicode::charCR == ch)
                     {
                         writeNumberedEntityReference(ch);
                     }
@@ -915,19 +915,10 @@ FormatterToXML::accumDefaultEscape(
                          throwInvalidCharacterException(ch, getMemoryManager());
                     }
                 }
-                else if( XalanUnicode::charNEL == ch )
-                {
-                    if(m_isXML1_1)
-                    {
-                        writeNumberedEntityReference(ch);
-                    }
-                    else
-                    {
-                        throwInvalidCharacterException(ch, getMemoryManager());
-                    }
-                }
                 else
                 {
+                    // This includes NEL, which is an ordinary character
+                    // in XML 1.0 and must be a reference in XML 1.1.
                     writeNumberedEntityReference(ch);
                 }
             }
@@ -1452,7 +1443,7 @@ FormatterToXML::writeNormalizedChars(
             if (0xd800u <= unsigned(c) && unsigned(c) < 0xdc00) 
             {
                 // UTF-16 surrogate
-                XalanDOMChar    next = 0;
+                XalanUnicodeChar    next = 0;
 
                 if (i + 1 >= end) 
                 {
@@ -1464,10 +1455,10 @@ FormatterToXML::writeNormalizedChars(
 
                     if (!(0xdc00 <= next && next < 0xe000))
                     {
-                        throwInvalidUTF16SurrogateException(c, next, getMemoryManager());
+                        throwInvalidUTF16SurrogateException(c, XalanDOMChar(next), getMemoryManager());
                     }
 
-                    next = XalanDOMChar(((c - 0xd800) << 10) + next - 0xdc00 + 0x00010000);
+                    next = ((c - 0xd800) << 10) + next - 0xdc00 + 0x00010000;
                 }
 
                 writeNumberedEntityReference(next);
